@@ -47,7 +47,8 @@ NV == Tr.nv
 Regs == 1..Tr.nregs
 Doms == DOMAIN Tr.obs
 SeqSet(q) == {q[k] : k \in DOMAIN q}
-Langs == SeqSet(Tr.langs)
+Langs == SeqSet(Tr.langs)       \* languages of the domains judged on this history
+AllLangs == {"itv", "zone", "oct"}
 
 RECURSIVE BoxOf(_, _)
 BoxOf(n, rad) == IF n = 0 THEN {<<>>} ELSE {Append(s, v) : s \in BoxOf(n - 1, rad), v \in (-rad)..rad}
@@ -177,7 +178,7 @@ KnownFor(dom, st, why) == {k \in DOMAIN KnownSigs : SigMatches(KnownSigs[k].sig,
 
 Init == /\ t \in DOMAIN Traces
         /\ l = 0
-        /\ S = [L \in SeqSet(Traces[t].langs) |-> [r \in 1..Traces[t].nregs |-> BoxOf(Traces[t].nv, Traces[t].R)]]
+        /\ S = [L \in AllLangs |-> [r \in 1..Traces[t].nregs |-> BoxOf(Traces[t].nv, Traces[t].R)]]
         /\ bad = {}
         /\ verdict = [d \in DOMAIN Traces[t].obs |-> "ok"]
 
@@ -200,7 +201,11 @@ Step ==
                                             Tr.id, l + 1, Tr.obs[d].dom, j>>) THEN "known" ELSE "known"
                            ELSE IF PrintT(<<"FAIL", Tr.id, l + 1, Tr.obs[d].dom, j, wit(d)>>) THEN j ELSE j]
      IN /\ S' = IF Tr.mode # "exact" \/ IsQuery(st) THEN S
-                 ELSE [L \in Langs |-> [S[L] EXCEPT ![st.r] = Target(L, st)]]
+                 \* EXCEPT is evaluated eagerly by TLC (a function constructor would be re-evaluated at every use);
+                 \* languages that are not judged for this history are not followed
+                 ELSE [S EXCEPT !["itv"][st.r]  = IF "itv"  \in Langs THEN Target("itv", st)  ELSE {},
+                                !["zone"][st.r] = IF "zone" \in Langs THEN Target("zone", st) ELSE {},
+                                !["oct"][st.r]  = IF "oct"  \in Langs THEN Target("oct", st)  ELSE {}]
         /\ verdict' = v
         /\ bad' = IF IsQuery(st) THEN bad
                   ELSE (bad \ {<<d, st.r>> : d \in Doms})
